@@ -9,5 +9,8 @@ ENGINES = {
     "C03": ("vf.engines.graph", {}),
     "C10": ("vf.engines.graph", {}),
     "C11": ("vf.engines.graph", {}),
+    "C08": ("vf.engines.nesting", {}),
+    "C06": ("vf.engines.values", {}),
+    "C14": ("vf.engines.values", {}),
 }
 PROPS = sorted(ENGINES)
